@@ -468,7 +468,9 @@ fn c07_subs<B: Fld>(run: &Arc<Run>) -> Vec<Arc<dyn Sub>> {
     // branch only for a few operands in a million, which no boundary class predicts): every residue of
     // [1, 2^k], [p - 2^k, p - 1], every 2^i + j with |j| <= 32, and 2^k seed-derived residues
     {
-        let k: u32 = tier.pick(18, 22);
+        // the 62-bit field inverts with a binary GCD whose reduction loops are data dependent; the other two invert by
+        // exponentiation (no data-dependent branches), a smaller sweep suffices there
+        let k: u32 = if B::NAME == "f62" { tier.pick(23, 25) } else { tier.pick(18, 20) };
         let block = 1u64 << 12;
         let span = 1u64 << k;
         let pows: Vec<u128> = {
@@ -1175,6 +1177,36 @@ fn c08_subs<B: Fld, E: Ext<B>>(run: &Arc<Run>) -> Vec<Arc<dyn Sub>> {
                 }
             },
             move |idx| json!({"x": elj(&e2[idx as usize].1, E::DEG), "ops": "square double neg cube inv conjugate mul_base embedding exp serialization slice views"}),
+        ));
+    }
+    // ---- dense inversion sweep: the inverse of an extension element goes through a base-field inversion of its
+    // norm, a pseudo-random value - rare operand-dependent defects of that inversion only show on many elements.
+    // Elements (i, i*K1 + 1 [, i*K2 + 2]) for i in [1, 2^k]; oracle: x * inv(x) = 1 and (1/x) * x = 1.
+    {
+        let k: u32 = if B::NAME == "f62" { tier.pick(23, 26) } else { tier.pick(16, 20) };
+        let total = 1u64 << k;
+        let block = 1u64 << 13;
+        let nm = name.clone();
+        let p = B::P;
+        subs.push(sub_t(
+            &format!("{name}.inversion_sweep"),
+            total / block,
+            60,
+            true,
+            move |cidx, out| {
+                for i in cidx * block + 1..=(cidx + 1) * block {
+                    let i = i as u128;
+                    let c: Vec<B> = [i % p, (i * 0x9E37_79B9_7F4A_7C15 + 1) % p, (i * 0xC2B2_AE3D_27D4_EB4F + 2) % p][..E::DEG].iter().map(|r| B::new_u(*r)).collect();
+                    let x = E::build(&c);
+                    let inv = x.inv();
+                    if x * inv != E::ONE || (E::ONE / x) * x != E::ONE {
+                        out.violation(format!("{nm}.inv: x * inv(x) != 1 (dense sweep)"), json!({"x": c.iter().map(|b| format!("{:#x}", b.int())).collect::<Vec<_>>()}));
+                    }
+                }
+                out.evals(block - 1);
+                out.nontrivial_n(block);
+            },
+            move |cidx| json!({"elements": format!("(i, i*K1+1[, i*K2+2]) for i in {}..={}", cidx * block + 1, (cidx + 1) * block)}),
         ));
     }
     subs
